@@ -870,6 +870,16 @@ func tryRCOLoop(w *W, r *rand.Rand, prop int) {
 		}
 	}
 	cfg := cfgFor(tree, OptSet(r.Intn(16)), true) // undefined-variable mode: NewCtxFromVars gives a map-backed context
+	if r.Intn(2) == 0 {
+		// ... or registered variables whose keys lie outside the slice fetcher's range: map-backed as well
+		cfg = cfgFor(tree, OptSet(r.Intn(16)), false)
+		cfg.Keys = map[string]eval.VariableKey{}
+		base := []int{300, 1000, -40}[r.Intn(3)]
+		for i, n := range cfg.VarNames {
+			cfg.Keys[n] = eval.VariableKey(base + i*3)
+		}
+		w.Inc("rco_loop_registered_keys_outside_slice_range")
+	}
 	v, ok := compileVariant(w, tree, tree.Prefix(), cfg, "rco-loop")
 	if !ok {
 		return
